@@ -17,7 +17,7 @@ def prog(pid, fam, tasks, nmutex=0, atomics=(), ncv=0, nrw=0, chans=(), sems=(),
             "chans": list(chans), "sems": [{"n": n, "fair": f} for (n, f) in sems],
             "barriers": list(barriers), "nonce": nonce, "nflags": nflags,
             "kinds": kinds or ["thread"] * len(tasks), "tasks": tasks, "maxsteps": maxsteps,
-            "tls_touch": [-1, -1], "tls_yield": [0, 0]}
+            "tls_touch": [-1, -1, -1], "tls_yield": [0, 0, 0]}
 
 
 class Env:
@@ -103,7 +103,7 @@ def gen_task(rng, alphabet, nops, env, state):
                 continue
             code.append(op("unpark", v=rng.choice(targets)))
         elif k in ("tls_get", "tls_set"):
-            code.append(op(k, o=rng.randrange(2), v=rng.randrange(1, 9)))
+            code.append(op(k, o=rng.randrange(3), v=rng.randrange(1, 9)))
         elif k in ("lz_fadd", "lz_load"):
             code.append(op(k, o=rng.randrange(2), v=rng.randrange(1, 4)))
         elif k == "sonce":
@@ -196,7 +196,7 @@ FAMILIES = {
     "barrier": (["barrier_wait", "barrier_wait", "fadd", "load"], dict(nbar=1, natom=1)),
     "barrier_reuse": (["barrier_wait", "barrier_wait", "barrier_wait", "fadd", "load"], dict(nbar=1, natom=1)),
     "once": (["call_once", "call_once", "is_completed", "load", "store"], dict(nonce=1, natom=1)),
-    "tls": (["tls_get", "tls_set", "tls_set", "yield", "lock", "unlock", "load", "store"], dict(nmutex=1, natom=1)),
+    "tls": (["tls_get", "tls_set", "tls_set", "tls_set", "yield", "lock", "unlock", "load", "store"], dict(nmutex=1, natom=1)),
     "statics": (["lz_fadd", "lz_fadd", "lz_load", "sonce", "sonce", "sonce_done", "load", "store"], dict(natom=1)),
     "ident": (["tid", "name", "me", "yield", "load", "store"], dict(natom=1)),
     "sem_unfair": (["acquire", "acquire", "try_acquire", "release", "release", "yield", "fadd", "load"], dict(nsem=1, natom=1)),
@@ -390,8 +390,8 @@ def gen_scope(count, seed, first_id=3500):
         main.append(op("scope_end"))
         main += bodies[0]
         pr = prog(first_id + i, "scope", [main] + bodies[1:], nmutex=1, atomics=[0])
-        pr["tls_touch"] = [rng.choice([-1, 1]), -1]
-        pr["tls_yield"] = [rng.choice([0, 1]), 0]
+        pr["tls_touch"] = [rng.choice([-1, 1]), -1, -1]
+        pr["tls_yield"] = [rng.choice([0, 1]), 0, 0]
         out.append(pr)
     return out
 
@@ -470,5 +470,10 @@ def gen_family(fam, count, seed, ntasks=(2, 3), nops=(1, 3), first_id=1000):
             kw["barriers"] = [rng.choice([1, 2, 2, 3])]
         if objs.get("nsem"):
             kw["sems"] = [(rng.randint(0, 2), 1 if fam == "sem_fair" else 0)]
-        out.append(prog(first_id + i, fam, tasks, **kw))
+        pr = prog(first_id + i, fam, tasks, **kw)
+        if fam == "tls":
+            # destructors that read another key (alive, already destroyed, or never initialised) and/or yield while dropping
+            pr["tls_touch"] = [rng.choice([-1, -1] + [x for x in range(3) if x != k_]) for k_ in range(3)]
+            pr["tls_yield"] = [rng.choice([0, 0, 1]) for _ in range(3)]
+        out.append(pr)
     return out
